@@ -44,7 +44,12 @@ MkOptional(pattern, seed) ==
   [rank |-> -1, parts |-> [k \in 1..Len(pattern) |-> IF pattern[k] THEN Mk(<<2>>, seed + k) ELSE NoTensor]]
 
 \* The shape the implementation records: dimensions for ranks 1..4, Nested(len) for nested lists.
-ShapeOf(t) == IF t.rank \in {0, -1} THEN <<"nested", Len(t.parts)>> ELSE DimsR(t.rank, t.data)
+\* For a list: its length AND the shapes of its entries (an addition of lists is element-wise on every entry).
+RECURSIVE ShapeOf(_)
+ShapeOf(t) ==
+  IF t.rank = -2 THEN <<-1>>
+  ELSE IF t.rank \in {0, -1} THEN <<"nested", [k \in 1..Len(t.parts) |-> ShapeOf(t.parts[k])]>>
+  ELSE DimsR(t.rank, t.data)
 
 \* ---- element functions ---------------------------------------------------
 ElemOps == {"add", "sub", "mul"}
@@ -66,7 +71,14 @@ Supported(op, t) ==
     [] op \in {"sub", "mul", "hadamard", "mean"} -> t.rank \in 1..4
 
 \* An operation with another operand is defined iff supported and the recorded shapes are equal.
-Defined(op, x, y) == Supported(op, x) /\ ShapeOf(x) = ShapeOf(y)
+RECURSIVE Compatible(_, _)
+\* equal shapes; in a list with optional entries an absent entry is compatible with anything
+Compatible(x, y) ==
+  IF x.rank = -1 /\ y.rank = -1
+    THEN Len(x.parts) = Len(y.parts)
+         /\ \A k \in 1..Len(x.parts) : x.parts[k] = NoTensor \/ y.parts[k] = NoTensor \/ Compatible(x.parts[k], y.parts[k])
+    ELSE ShapeOf(x) = ShapeOf(y)
+Defined(op, x, y) == Supported(op, x) /\ Compatible(x, y)
 OptPatterns == {<<TRUE, TRUE, TRUE>>, <<TRUE, FALSE, TRUE>>, <<FALSE, TRUE, TRUE>>, <<TRUE, FALSE, FALSE>>}
 
 RECURSIVE DivBy(_, _)
@@ -86,7 +98,7 @@ MeanOf(x, others) ==
 
 \* ---- behaviours ------------------------------------------------------------
 \* shapes that straddle 64 along one axis (block sizes used by parallel / chunked code paths must not show)
-LargeShapes == {<<70>>, <<65, 2>>, <<2, 65>>, <<1, 66, 2>>, <<1, 1, 65, 1>>}
+LargeShapes == {<<70>>, <<65, 2>>, <<2, 65>>, <<1, 66, 2>>, <<1, 1, 65, 1>>, <<33, 35>>}   \* 33 x 35: neither extent a multiple of 32
 StartTensors ==
   {Mk(s, seed) : s \in UNION {ShapesOf(r) : r \in 1..4}, seed \in Seeds}
   \cup {Mk(s, 7) : s \in LargeShapes}
@@ -100,7 +112,8 @@ Operands(x) ==
     \* every presence pattern of the same length (incl. ones that differ from x's), and a shorter list
     THEN {MkOptional(pat, 5) : pat \in OptPatterns} \cup {MkOptional(<<TRUE, TRUE>>, 5)}
   ELSE IF x.rank = 0
-    THEN {MkNested(<<<<2>>, <<1, 2>>>>, 5), MkNested(<<<<2>>>>, 5)}
+    \* the matching list, a shorter list, and lists of the same length with ONE entry of another shape
+    THEN {MkNested(<<<<2>>, <<1, 2>>>>, 5), MkNested(<<<<2>>>>, 5), MkNested(<<<<3>>, <<1, 2>>>>, 5), MkNested(<<<<2>>, <<1, 3>>>>, 5)}
     ELSE LET s == DimsR(x.rank, x.data) IN
          {Mk(s, 4), Mk(s, 9), Mk([s EXCEPT ![1] = (s[1] % MaxDim) + 1], 4)}
          \cup (IF x.rank = 2 THEN {Mk(<<s[1] * s[2]>>, 4)} ELSE {})
@@ -206,7 +219,7 @@ RefusedIffMismatch ==
   \A i \in 1..Len(hist) :
     LET h == hist[i] IN
     h.op \in (ElemOps \cup {"hadamard"}) =>
-      ((h.outcome = "panic") <=> ~(Supported(h.op, h.result) /\ ShapeOf(h.arg) = ShapeOf(h.result)))
+      ((h.outcome = "panic") <=> ~(Supported(h.op, h.result) /\ Compatible(h.result, h.arg)))
 \* Exactness domain: every integer stays far below 2^24.
 RECURSIVE MaxAbs(_)
 MaxAbs(t) ==
